@@ -57,6 +57,18 @@ def gen(repo):
         raise ExtractError("from_prune_options: sections are extended in an unexpected order: %r" % order)
     if not re.search(r"GlobalIndex::new_from_index\(index_collector\.into_index\(\)\)", fpo):
         raise ExtractError("from_prune_options: the index is no longer built by into_index + new_from_index")
+    # check_packs (commands/check.rs): the index `check` builds for itself
+    ck = read(repo, "crates/core/src/commands/check.rs")
+    cpk = " ".join(fn_body(ck, "check_packs").split())
+    mck = re.search(r"let mut index_collector = IndexCollector::new\(IndexType::(\w+)\);", cpk)
+    if not mck or mck.group(1) not in ("Full", "DataIds", "OnlyTrees"):
+        raise ExtractError("check_packs: IndexCollector::new(IndexType::..) not found")
+    cext = [e.strip() for e in re.findall(r"index_collector\.extend\(([^;]*)\);", cpk)]
+    if not cext or any(e not in known for e in cext):
+        raise ExtractError("check_packs: unrecognised index_collector.extend calls: %r" % cext)
+    corder = [known[e] for e in cext]
+    if corder not in (["packs"], ["marked"], ["packs", "marked"]):
+        raise ExtractError("check_packs: sections are extended in an unexpected order: %r" % corder)
     # BlobType::is_cacheable
     bl = read(repo, "crates/core/src/blob.rs")
     ic = " ".join(fn_body(bl, "is_cacheable").split())
@@ -87,10 +99,13 @@ def gen(repo):
     out.append("Definition PRUNE_INDEX_TYPE : imode := %s." % prune_type)
     out.append("Definition PRUNE_USES_PACKS : bool := %s." % ("true" if "packs" in order else "false"))
     out.append("Definition PRUNE_USES_MARKED : bool := %s." % ("true" if "marked" in order else "false"))
+    out.append("Definition CHECK_INDEX_TYPE : imode := %s." % mck.group(1))
+    out.append("Definition CHECK_USES_PACKS : bool := %s." % ("true" if "packs" in corder else "false"))
+    out.append("Definition CHECK_USES_MARKED : bool := %s." % ("true" if "marked" in corder else "false"))
     out.append("Definition TREE_IS_CACHEABLE : bool := %s." % mc.group(1))
     out.append("Definition DATA_IS_CACHEABLE : bool := %s." % mc.group(2))
     meta = dict(consts)
-    meta.update({"prune_index_type": prune_type, "prune_sections": order,
+    meta.update({"check_index_type": mck.group(1), "check_sections": corder, "prune_index_type": prune_type, "prune_sections": order,
                  "tree_is_cacheable": mc.group(1) == "true", "data_is_cacheable": mc.group(2) == "true"})
     meta.update({"empty_pack_type": empty_type, "loader_uses_packs": uses_packs, "loader_uses_marked": uses_marked})
     return "\n".join(out) + "\n", meta
